@@ -27,16 +27,13 @@ Definition is_aut (g : vgraph) (f : N -> N) : Prop :=
   (forall v, In v (node_ids g) -> kind_of g (f v) = kind_of g v) /\
   (forall u v, In u (node_ids g) -> In v (node_ids g) -> find_arc g (f u) (f v) = find_arc g u v).
 
-(** decidable well-formedness (evaluated on every correspondence case) *)
-Fixpoint nodupb {A} (eqb : A -> A -> bool) (l : list A) : bool :=
-  match l with [] => true | x :: r => negb (existsb (eqb x) r) && nodupb eqb r end.
-Definition pairN_eqb (a b : N * N) : bool := N.eqb (fst a) (fst b) && N.eqb (snd a) (snd b).
-Definition wfb (g : vgraph) : bool :=
-  nodupb N.eqb (node_ids g) && nodupb pairN_eqb (map akey (varcs g))
-  && forallb (fun e => memN (asrc e) (node_ids g) && memN (adst e) (node_ids g)) (varcs g).
-
 (** best permutation / minimal leaves of the search *)
 Definition best_perm (g : vgraph) : option (list N) := option_map snd (fst (canon_search g)).
 Definition min_leaves (g : vgraph) : list (list N) := snd (canon_search g).
 (** the canonical graph the code returns *)
 Definition canon_of (g : vgraph) : option vgraph := option_map (canon_graph g) (best_perm g).
+
+(** renaming the species of a network (reaction ids untouched) *)
+Definition rename_side (f : N -> N) (l : list (N * Z)) : list (N * Z) := map (fun sc => (f (fst sc), snd sc)) l.
+Definition rename_species (f : N -> N) (n : net) : net :=
+  Net (map f (nspecies n)) (map (fun r => Rxn (rid r) (rename_side f (lhs r)) (rename_side f (rhs r))) (nrxns n)).
